@@ -87,7 +87,9 @@ def r3(ctx):
         for c, q in repo.calls_in(ff):
             if q == ARB + ".spawn_worker":
                 callers.setdefault(ff.qualname, []).append(c)
-    ctx.check("C20.R3", set(callers) == {ARB + ".spawn_workers", ARB + ".reload"}, key(f, "callers"), site(f), "spawn_worker is called from %s (expected spawn_workers and reload)" % sorted(callers), "callers: spawn_workers, reload")
+    # (spawn_workers is a three-line loop that may or may not be folded into manage_workers)
+    allowed = {ARB + ".spawn_workers", ARB + ".manage_workers", ARB + ".reload"}
+    ctx.check("C20.R3", bool(callers) and set(callers) <= allowed, key(f, "callers"), site(f), "spawn_worker is called from %s (expected the worker-count maintenance and reload only)" % sorted(callers), "callers: spawn_workers/manage_workers, reload")
     # the only fork sites of the package that create workers
     for ff in repo.funcs():
         if ff.module.name.startswith("gunicorn.workers") or ff.module.name in ("gunicorn.arbiter",):
